@@ -236,7 +236,7 @@ def campaign(run, tier, seed, want_mc=True, focus=None):
     # by one of its own earlier packets)
     n = 0
     for pk in MODEL_PACKS:
-        for p in pats[: (3 if tier == "quick" else len(pats))]:
+        for p in pats[: (3 if tier == "quick" else 8)]:
             for fl, rev in (("default", True), ("forest", True), ("forest", False)):
                 if fl != "forest" and sc.PACKS[pk].get("lazy"):
                     continue
@@ -245,7 +245,7 @@ def campaign(run, tier, seed, want_mc=True, focus=None):
                 if tier == "quick" and not rev and n % 3:
                     continue
                 scheds = ("one", "three", "all", "mixed")
-                for sch in ((scheds[n % 4],) if tier == "quick" else scheds):
+                for sch in ((scheds[n % 4],) if tier == "quick" else (scheds[n % 4], scheds[(n + 2) % 4])):
                     cfgs.append(("", p, "ab", sc.PACK_STATS.get(pk, "s0"), pk, fl, sch, rev))
                 n += 1
     # a pack in which the start class is only reachable through a foreign-parent rule / a reverse rule
@@ -283,6 +283,9 @@ def campaign(run, tier, seed, want_mc=True, focus=None):
             key = json.dumps(job["universe"], sort_keys=True)
             if key not in seen and job["tid"].split("|")[5] in ("default", "forest"):
                 seen[key] = job
+        if tier != "quick" and len(seen) > 400:
+            keys_ = list(seen)
+            seen = {k: seen[k] for i, k in enumerate(keys_) if "|plain|" in seen[k]["tid"] or i % (len(keys_) // 400 + 1) == 0}
         if tier == "quick" and len(seen) > 36:
             # a deterministic sample: the README-pack universes and every third of the others
             keys_ = list(seen)
